@@ -2,9 +2,9 @@ package c01
 
 import (
 	"errors"
-	"os"
 	"fmt"
 	"math"
+	"os"
 	"strconv"
 	"strings"
 	"testing"
